@@ -21,14 +21,18 @@ import (
 	"io"
 	"net"
 	"net/http"
+	"os"
 	"strconv"
 	"strings"
+	"sync/atomic"
 	"time"
 
 	"github.com/EliCDavis/polyform/generator"
 	"github.com/EliCDavis/polyform/generator/artifact"
 	"github.com/EliCDavis/polyform/nodes"
 )
+
+var serverCounter atomic.Int64
 
 type httpSrv struct {
 	base   string
@@ -54,7 +58,10 @@ func startServer(files map[string]nodes.NodeOutput[artifact.Artifact]) (*httpSrv
 			last = err
 			continue
 		}
-		app := &generator.App{Name: "c13", Version: "v0", Files: files, Out: io.Discard}
+		// a name nobody else uses: the page served at "/" shows it, which tells OUR server from a foreign one that
+		// grabbed the port between freePort() and the bind (several checks run on this machine at the same time)
+		name := fmt.Sprintf("c13-%d-%d-%d", os.Getpid(), serverCounter.Add(1), time.Now().UnixNano())
+		app := &generator.App{Name: name, Version: "v0", Files: files, Out: io.Discard}
 		failed := make(chan error, 1)
 		go func() {
 			defer func() {
@@ -76,7 +83,9 @@ func startServer(files map[string]nodes.NodeOutput[artifact.Artifact]) (*httpSrv
 			default:
 			}
 			if _, _, err := srv.do("GET", "/started", nil); err == nil {
-				return srv, nil
+				if _, page, err := srv.do("GET", "/", nil); err == nil && bytes.Contains(page, []byte(name)) {
+					return srv, nil
+				}
 			}
 			time.Sleep(5 * time.Millisecond)
 		}
